@@ -67,7 +67,8 @@ class Unit:
         self.consts = list(consts)
         self.type_spec = type_spec
         self.name = name
-        self.prop = prop
+        self.prop = prop if isinstance(prop, str) else prop[0]
+        self.props = [prop] if isinstance(prop, str) else list(prop)
         self.prove = list(prove)      # [Fn]
         self.use = list(use)          # [Fn] imported as external_body stubs (contract only)
         self.types = list(types)      # paths of struct/enum/const items copied verbatim
